@@ -280,7 +280,7 @@ def gen(seed, run, tier='quick'):
     while len(probes) < n_probes and tries < 300:
         tries += 1
         form = rng.choice(['uu*', 'uu*', 'uu/', 'uu/', 'u**', 'qq*', 'qq/',
-                           'qu*', 'qu/', 'uq*', 'k/u', 'q**'])
+                           'qu*', 'qu/', 'uq*', 'k/u', 'k/q', 'q**'])
         x = rng.random()
         s1 = rng.choice(noref_syms if x < 0.25 else user_syms
                         if x < 0.7 else syms)
@@ -288,7 +288,7 @@ def gen(seed, run, tier='quick'):
         n = rng.choice([2, 2, 3, -1, -2, 0, 1])
         if form in ('u**', 'q**'):
             bvec, num = model.expand([(s1, n)])
-        elif form == 'k/u':
+        elif form in ('k/u', 'k/q'):
             bvec, num = model.expand([(s1, -1)])
         elif form.endswith('*'):
             bvec, num = model.expand([(s1, 1), (s2, 1)])
@@ -484,6 +484,8 @@ def run_world(arg):
                 r = u1 * (a2 * u2)
             elif form == 'k/u':
                 r = a1 / u1
+            elif form == 'k/q':
+                r = a1 / (a2 * u1)
             elif form == 'q**':
                 r = (a1 * u1) ** p['n']
             else:
@@ -654,7 +656,7 @@ def _precondition(model, p):
             bvec, num = model.expand([(p['s1'], p['n'])])
             if p['n'] == 1:
                 return True
-        elif form == 'k/u':
+        elif form in ('k/u', 'k/q'):
             bvec, num = model.expand([(p['s1'], -1)])
         elif form.endswith('*'):
             bvec, num = model.expand([(p['s1'], 1), (p['s2'], 1)])
